@@ -13,7 +13,9 @@ struct Sym {
     single: Option<&'static str>,
 }
 
-const ALPHABET: [Sym; 15] = [
+const ALPHABET: [Sym; 17] = [
+    Sym { pat: "mut foo", plain: Some("foo"), single: None }, // binding mode on a parameter named like the function
+    Sym { pat: "ref foo", plain: Some("foo"), single: None },
     Sym { pat: "a", plain: Some("a"), single: None },
     Sym { pat: "mut m", plain: Some("m"), single: None },
     Sym { pat: "ref r", plain: Some("r"), single: None },
@@ -33,7 +35,7 @@ const ALPHABET: [Sym; 15] = [
 
 fn c16(ctx: &Ctx, r: &mut Report) {
     let max = if ctx.tier == Tier::Thorough { 6 } else { 4 };
-    r.domain = "all lists of irrefutable parameter patterns over {a, mut m, ref r, r#type, _, (p,q), N(n), N(k,_), S{s}, &amp, foo (= fn name), foo_, arg1, _arg0, W(foo)} for `fn foo`, with and without a leading receiver; a symbol is not repeated (bindings must be distinct in valid Rust) except `_`".into();
+    r.domain = "all lists of irrefutable parameter patterns over {a, mut m, ref r, r#type, _, (p,q), N(n), N(k,_), S{s}, &amp, foo (= fn name), mut foo, ref foo, foo_, arg1, _arg0, W(foo)} for `fn foo`, with and without a leading receiver; a symbol is not repeated (bindings must be distinct in valid Rust) except `_`".into();
     r.bound = format!("list length 0..{}", max);
     for n in 0..=max {
         for seq in sequences(ALPHABET.len(), n) {
